@@ -30,6 +30,8 @@ SPEC['explanation'] += ' T15.width: the bucket width is derived from the true qu
 SPEC['decided'] += ['bucket width by true division']
 SPEC['explanation'] += " T9.countfirst: the addition is counted before the closing bucket is compacted. T14.get: get() answers with the count or the caller's default."
 SPEC['decided'] += ['count before compaction']
+SPEC['explanation'] += ' T9.srcorder: update() does not merge or re-key its sources through dict()/set() (a key present in the mapping and in the keyword counts is counted for both).'
+SPEC['decided'] += ['update sources fed as given']
 MANIFEST = {
     'technique': 'dominance / contradiction checks on tests, who-may-write analysis, must-pass-through on all CFG paths, dependence check on the compaction predicate',
     'text': ('Decides structural necessary conditions of C20 on all paths (omitted n, mapping arguments, keyword counts, '
@@ -45,6 +47,8 @@ def run(ctx):
     require_fields(ctx.program, 'cacheutils.ThresholdCounter', ['_count_map', 'total', '_cur_bucket', '_thresh_count', '_threshold'])
     prog = ctx.program
     ci = prog.cls(CLS)
+    from rules.common import check_sources_in_order as _cso
+    _cso(ctx, prog.func(CLS + '.update'))
     # T15.width: the bucket width is floor(1 / threshold) computed on the *true* quotient.  The threshold is a float: float floor
     # division is taken on its exact binary value (1 // 0.1 == 9.0, 1 // 0.001 == 999.0), one less than the width the bound
     # floor(total / width) is stated for.
@@ -233,8 +237,31 @@ def run(ctx):
     scope = [add] + [m for nm, m in ci.members.items() if isinstance(m, FuncInfo) and nm.startswith('_') and not nm.startswith('__')
                      and owned(nm) and nm not in ('__init__',)]
     preds = []
+    # a helper may receive the map and the bucket number as arguments: bind its parameters from the call sites in scope
+    passed = {}
+    for caller in scope:
+        al_b = {'self._cur_bucket'} | {a_.targets[0].id for a_ in ast.walk(caller.node) if isinstance(a_, ast.Assign) and
+                                       txt(a_.value) == 'self._cur_bucket' and isinstance(a_.targets[0], ast.Name)}
+        al_m = {'self._count_map'} | {a_.targets[0].id for a_ in ast.walk(caller.node) if isinstance(a_, ast.Assign) and
+                                      txt(a_.value) == 'self._count_map' and isinstance(a_.targets[0], ast.Name)}
+        for c in ast.walk(caller.node):
+            if isinstance(c, ast.Call) and ((isinstance(c.func, ast.Attribute) and txt(c.func.value) in ('self', 'cls', ci.name)) or
+                                            isinstance(c.func, ast.Name)):
+                nm = c.func.attr if isinstance(c.func, ast.Attribute) else c.func.id
+                callee = ci.members.get(nm)
+                if not isinstance(callee, FuncInfo):
+                    continue
+                ps = [a_.arg for a_ in callee.node.args.args]
+                if ps and ps[0] in ('self', 'cls') and not any(txt(d) == 'staticmethod' for d in callee.node.decorator_list):
+                    ps = ps[1:]
+                for prm, arg in zip(ps, c.args):
+                    if txt(arg) in al_b:
+                        passed.setdefault(nm, (set(), set()))[0].add(prm)
+                    if txt(arg) in al_m or txt(arg) in {m_ + '.items()' for m_ in al_m}:
+                        passed.setdefault(nm, (set(), set()))[1].add(prm)
     for fn in scope:
-        bucket_names = {'self._cur_bucket'}
+        bucket_names = {'self._cur_bucket'} | passed.get(fn.name, (set(), set()))[0]
+        map_params = passed.get(fn.name, (set(), set()))[1]
         for n in ast.walk(fn.node):
             if isinstance(n, ast.Assign) and txt(n.value) == 'self._cur_bucket' and isinstance(n.targets[0], ast.Name):
                 bucket_names.add(n.targets[0].id)
@@ -245,7 +272,8 @@ def run(ctx):
                     tgt = g.target
                     var = txt(tgt.elts[1]) if isinstance(tgt, ast.Tuple) and len(tgt.elts) == 2 else txt(tgt)
                     conds += [(c, var, fn) for c in g.ifs]
-            elif isinstance(n, ast.For) and '_count_map' in txt(n.iter):
+            elif isinstance(n, ast.For) and ('_count_map' in txt(n.iter) or
+                                             any(isinstance(x, ast.Name) and x.id in map_params for x in ast.walk(n.iter))):
                 tgt = n.target
                 var = txt(tgt.elts[1]) if isinstance(tgt, ast.Tuple) and len(tgt.elts) == 2 else txt(tgt)
                 for c in ast.walk(n):
